@@ -81,24 +81,35 @@ def msn(s: str) -> str:
     return "'" + ''.join(out) + "'"
 
 
-def env_ops(entries) -> T.List[T.Tuple[str, str, str, str]]:
-    """site env entries: (name, value) = set; (name, value, op, separator) with op in set/append/prepend"""
+def env_ops(entries) -> T.List[T.Tuple[str, T.Optional[T.List[str]], str, str]]:
+    """site env entries: (name, value) = set; (name, value | [values…], op, separator) with op in set/append/prepend;
+    (name, None, 'unset', '') = unset.  Normalised to (name, values, op, separator)."""
     out = []
     for e in entries:
         e = tuple(e)
-        out.append((e[0], e[1], 'set', ':') if len(e) == 2 else (e[0], e[1], e[2], e[3]))
+        if len(e) == 2:
+            out.append((e[0], [e[1]], 'set', ':'))
+        elif e[2] == 'unset':
+            out.append((e[0], None, 'unset', ''))
+        else:
+            out.append((e[0], list(e[1]) if isinstance(e[1], (list, tuple)) else [e[1]], e[2], e[3]))
     return out
 
 
 def env_base(entries) -> T.Dict[str, str]:
-    """values present in the environment of the process that executes the command (so that append/prepend differ)"""
+    """values present in the environment of the process that executes the command (so that append/prepend/unset differ)"""
     return {k: 'base' for k, _v, op, _s in env_ops(entries) if op != 'set'}
 
 
 def expected_env(entries, base: T.Dict[str, str]) -> T.Dict[str, str]:
-    """documented semantics of environment(): set replaces, append/prepend join with the separator"""
+    """documented semantics of environment(): set replaces, append/prepend join with the separator, several values of
+    one operation are joined with that operation's separator, unset removes"""
     cur = dict(base)
-    for k, v, op, sep in env_ops(entries):
+    for k, vals, op, sep in env_ops(entries):
+        if op == 'unset':
+            cur.pop(k, None)
+            continue
+        v = sep.join(vals)
         if op == 'set' or k not in cur:
             cur[k] = v
         elif op == 'append':
@@ -106,6 +117,17 @@ def expected_env(entries, base: T.Dict[str, str]) -> T.Dict[str, str]:
         else:
             cur[k] = v + sep + cur[k]
     return cur
+
+
+def envdef_lines(name: str, env) -> T.List[str]:
+    L = [f'{name} = environment()']
+    for k, vals, op, sep in env_ops(env):
+        if op == 'unset':
+            L.append(f'{name}.unset({msn(k)})')
+            continue
+        sepkw = '' if sep == ':' else f', separator: {msn(sep)}'
+        L.append(f'{name}.{op}({msn(k)}, {", ".join(msn(v) for v in vals)}{sepkw})')
+    return L
 
 
 def msl(l: T.Iterable[str]) -> str:
@@ -273,10 +295,7 @@ def gen_project(rng, idx: int, kind: str, extra: T.List[str], nsites: int) -> T.
     L = ["project('p%d', 'c')" % idx, "py = find_program(%s)" % msn(sys.executable), "dump = files('dump.py')"]
 
     def envdef(name: str, env) -> None:
-        L.append(f'{name} = environment()')
-        for k, v, op, sep in env_ops(env):
-            sepkw = '' if sep == ':' else f', separator: {msn(sep)}'
-            L.append(f'{name}.{op}({msn(k)}, {msn(v)}{sepkw})')
+        L.extend(envdef_lines(name, env))
 
     def mkenv(sid: str, allow_nl: bool) -> T.List[T.Tuple[str, str]]:
         return [(f'MV_E{j}', hostile(rng, extra, allow_nl)) for j in range(rng.randint(1, 2))]
@@ -343,6 +362,57 @@ def gen_project(rng, idx: int, kind: str, extra: T.List[str], nsites: int) -> T.
         L.append(f"executable('e0', 'main.c', c_args: {msl(cargs)}, link_args: {msl(largs)})")
         sites.append(Site('e0', 'c_args', 'plain', cargs, []))
         sites.append(Site('e0', 'link_args', 'plain', largs, []))
+        return sites, '\n'.join(L) + '\n'
+    if kind == 'envops':
+        # the environment as a command position: several values per operation, every separator, append/prepend over an
+        # inherited value, unset of an inherited variable — through every delivery path (inline `env` prefix, `--internal exe`
+        # + pickled wrapper, test serialisation)
+        def envs():
+            v = [hostile(rng, extra, False) or 'v' for _ in range(3)]
+            return [
+                [('MV_E0', ['alpha', 'beta'], 'set', ';')],
+                [('MV_E0', ['alpha', 'beta', v[0]], 'set', ','), ('MV_E1', [v[1], 'b'], 'set', ':')],
+                [('MV_E0', [v[0], v[1]], 'set', ' '), ('MV_E0', ['x', 'y'], 'set', '::')],
+                [('MV_E0', ['one'], 'set', ';'), ('MV_E1', [v[2], 'z'], 'set', '')],
+                [('MV_E0', ['p', 'q'], 'append', ';'), ('MV_E1', ['r', v[0]], 'prepend', ',')],
+                [('MV_E0', ['s1', 's2'], 'set', ';'), ('MV_E0', ['a1', 'a2'], 'append', ','), ('MV_E0', ['p1'], 'prepend', ':')],
+                [('MV_EU', None, 'unset', '')],
+                [('MV_EU', None, 'unset', ''), ('MV_E0', ['k', v[1]], 'set', ';')],
+            ]
+        n = 0
+        for env in envs():
+            for mode, kws in (('env', []), ('env+capture', ['capture: true'])):
+                sid = f'ct{n}'
+                n += 1
+                envdef(f'env_{sid}', env)
+                kw = [f"output: '{sid}.out'"] + kws + [f'env: env_{sid}']
+                L.append(f"custom_target('{sid}', {', '.join(kw)}, command: [py, dump, 'x'])")
+                sites.append(Site(sid, 'custom_target', mode, ['x'], env))
+        for env in envs():
+            sid = f'rt{n}'
+            n += 1
+            envdef(f'env_{sid}', env)
+            L.append(f"run_target('{sid}', command: [py, dump, 'x'], env: env_{sid})")
+            sites.append(Site(sid, 'run_target', 'env', ['x'], env))
+        for env in envs()[:6:2] + envs()[6:7]:
+            sid = f'g{n}'
+            n += 1
+            envdef(f'env_{sid}', env)
+            L.append(f"gen_{sid} = generator(py, output: '@BASENAME@.h', "
+                     f"arguments: [meson.current_source_dir() / 'dump.py', 'x', '@EXTRA_ARGS@', '@INPUT@', '@OUTPUT@'])")
+            L.append(f"executable('x{sid}', 'main.c', gen_{sid}.process('{sid}.in', env: env_{sid}))")
+            sites.append(Site(sid, 'generator', 'env', ['x'], env))
+        for env in envs():
+            sid = f't{n}'
+            n += 1
+            envdef(f'env_{sid}', env)
+            L.append(f"test('{sid}', py, args: [dump, 'mvid={sid}', 'x'], env: env_{sid})")
+            sites.append(Site(sid, 'test', 'envops', ['x'], env))
+        # a program whose path has a `=` in it, with an environment (the inline form cannot express it)
+        L.append("eqprog = find_program('my=prog.py')")
+        envdef('env_eq', [('MV_E0', ['a', 'b'], 'set', ';')])
+        L.append("custom_target('cteq', output: 'cteq.out', command: [eqprog, 'x'], env: env_eq)")
+        sites.append(Site('cteq', 'custom_target', 'env', ['x'], [('MV_E0', ['a', 'b'], 'set', ';')]))
         return sites, '\n'.join(L) + '\n'
     if kind == 'crosstalk':
         # families of commands that agree in every field that names the pickled wrapper file except one
@@ -604,6 +674,9 @@ def write_project(root: str, text: str, sites: T.List[Site]) -> T.Tuple[str, str
         f.write(DUMPER)
     with open(os.path.join(src, 'wdump.py'), 'w') as f:
         f.write(WDUMPER)
+    with open(os.path.join(src, 'my=prog.py'), 'w') as f:
+        f.write('#!' + sys.executable + '\n' + DUMPER)
+    os.chmod(os.path.join(src, 'my=prog.py'), 0o755)
     with open(os.path.join(src, 'main.c'), 'w') as f:
         f.write('int main(void) { return 0; }\n')
     with open(os.path.join(src, 'feed.txt'), 'w') as f:
@@ -1027,6 +1100,10 @@ def _evaluate_project(ctx: Ctx, root: str, b: str, dumpdir: str, kind: str, site
         env = dict(os.environ, MV_DUMP=dumpdir, PYTHONPATH=common.REPO, LC_ALL='C.UTF-8',
                    PATH=FAKEBIN + os.pathsep + os.environ.get('PATH', ''))
         env.pop('MV_ID', None)
+        tbase: T.Dict[str, str] = {}
+        for s in tsites:
+            tbase.update(env_base(s.env))
+        env.update(tbase)
         p = subprocess.run([sys.executable, os.path.join(common.REPO, 'meson.py'), 'test', '--no-rebuild', '-C', b],
                            env=env, stdout=subprocess.PIPE, stderr=subprocess.STDOUT, timeout=300)
         for s in tsites:
@@ -1041,9 +1118,12 @@ def _evaluate_project(ctx: Ctx, root: str, b: str, dumpdir: str, kind: str, site
                 ctx.violation(key_of(s), f'test argv differs: expected {s.args!r}, got {recs[0]["argv"]!r}',
                               case_of(kind, s, {'got': recs[0]['argv']}))
                 continue
-            for k, v in s.env:
-                if recs[0]['env'].get(k) != v:
-                    ctx.violation(key_of(s), f'test env {k}: expected {v!r}, got {recs[0]["env"].get(k)!r}', case_of(kind, s, {}))
+            want_env = expected_env(s.env, tbase)
+            if recs[0]['env'] != want_env:
+                ctx.violation(key_of(s), f'test env differs: expected {want_env!r} (meson test itself inherits {tbase!r}), '
+                              f'process saw {recs[0]["env"]!r}', case_of(kind, s, {'expected_env': want_env,
+                                                                                   'got_env': recs[0]['env']}))
+                continue
             ctx.seen_nontrivial(('e2e', key_of(s)))
 
 
@@ -1378,14 +1458,16 @@ def check_pickles(ctx: Ctx, b: str, kind: str, jobs) -> None:
             continue
         if s.position == 'generator':
             want = [want[0] + list(s.extra)]
-        tail = got_args[2:-2] if s.position == 'generator' else got_args[2:]
+        # the words after the dumper program (`py dump.py …`, or the dumper started directly)
+        di = next((i for i, a in enumerate(got_args) if a.endswith('dump.py') or a.endswith('my=prog.py')), 1)
+        tail = got_args[di + 1:-2] if s.position == 'generator' else got_args[di + 1:]
         want_env = expected_env(s.env, base)
         if tail != want[0] or got_env != want_env:
             ctx.violation(key_of(s), f'the wrapper file named by this command holds another command: arguments {tail!r} '
                           f'env {got_env!r}; the definition says {want[0]!r} {want_env!r}',
                           case_of(kind, s, {'dat': os.path.basename(path), 'file_args': tail, 'file_env': got_env}))
     for path, ss in by_path.items():
-        distinct = {(tuple(x.args), tuple(map(tuple, x.env)), x.mode.split('-')[-1] if 'capture' in x.mode or 'feed' in x.mode
+        distinct = {(tuple(x.args), repr(x.env), x.mode.split('-')[-1] if 'capture' in x.mode or 'feed' in x.mode
                      else '', x.sid if ('capture' in x.mode or 'feed' in x.mode) else '') for x in ss}
         if len(distinct) > 1:
             a, c = ss[0], next(x for x in ss if (x.args, x.env) != (ss[0].args, ss[0].env) or x.sid != ss[0].sid)
@@ -1440,7 +1522,7 @@ def run_e2e(ctx: Ctx, scratch: str, extra_strings: T.Optional[T.List[str]] = Non
         sites, text = gen_project(rng, idx, 'rsp', extra, 4)
         plan.append(('rsp', sites, text))
         idx += 1
-    for kind in ('rspmix', 'argtalk-both', 'argtalk-static', 'argtalk-shared', 'templates', 'crosstalk', 'tests', 'optlike',
+    for kind in ('envops', 'rspmix', 'argtalk-both', 'argtalk-static', 'argtalk-shared', 'templates', 'crosstalk', 'tests', 'optlike',
                  'nl-env', 'nl-compile'):
         sites, text = gen_project(rng, idx, kind, extra, 1)
         plan.append((kind, sites, text))
@@ -1487,10 +1569,7 @@ def replay_case(ctx: Ctx, scratch: str, case: dict) -> None:
 def single_site_project(s: Site, kind: str) -> T.Tuple[T.List[Site], str]:
     L = ["project('r', 'c')", "py = find_program(%s)" % msn(sys.executable), "dump = files('dump.py')"]
     if s.env:
-        L.append('e = environment()')
-        for k, v, op, sep in env_ops(s.env):
-            sepkw = '' if sep == ':' else f', separator: {msn(sep)}'
-            L.append(f'e.{op}({msn(k)}, {msn(v)}{sepkw})')
+        L.extend(envdef_lines('e', s.env))
     envkw = ', env: e' if s.env else ''
     a = ''.join(', ' + msn(x) for x in s.args)
     sid = s.sid
